@@ -18,6 +18,7 @@ package graph
 
 import (
 	"bufio"
+	"crypto/sha1"
 	"encoding/json"
 	"fmt"
 	"hash/fnv"
@@ -113,7 +114,8 @@ func unquoteTLA(s string) string {
 	return b.String()
 }
 
-// Load parses TLC output. tag is the first tuple element ("EDGE").
+// Load reads either TLC's raw output or the compact graph written by cmd/compile
+// ({"s":id,"st":state} / {"e":[from,to],"op":op} lines).
 func Load(path string) (*Graph, error) {
 	f, err := os.Open(path)
 	if err != nil {
@@ -121,26 +123,88 @@ func Load(path string) (*Graph, error) {
 	}
 	defer f.Close()
 	g := &Graph{Out: map[string][]*Edge{}, Expanded: map[string]bool{}}
-	seenEdge := map[string]bool{}
+	seenEdge := map[[20]byte]bool{}
 	seenOp := map[string]bool{}
+	var states []string
+	intern := map[string]string{}
 	sc := bufio.NewScanner(f)
 	sc.Buffer(make([]byte, 1<<20), 1<<26)
 	const pfx = `<<"EDGE", "`
-	for sc.Scan() {
-		line := sc.Text()
-		if strings.HasPrefix(line, `<<"INIT", "`) {
-			body := unquoteTLA(line[len(`<<"INIT", "`) : len(line)-3])
-			c, err := Canon([]byte(body))
-			if err != nil {
-				return nil, fmt.Errorf("bad INIT line: %w", err)
+	add := func(from, to string, op Op) {
+		if op.Name() == "Probe" {
+			if _, ok := g.Out[from]; !ok {
+				g.Order = append(g.Order, from)
+				g.Out[from] = nil
 			}
-			g.Init = c
+			g.Expanded[from] = true
+			return
+		}
+		opNoRes := Op{}
+		for k, v := range op {
+			if k != "res" {
+				opNoRes[k] = v
+			}
+		}
+		ops := CanonV(opNoRes)
+		if s, ok := intern[ops]; ok {
+			ops = s
+		} else {
+			intern[ops] = ops
+		}
+		h := sha1.New()
+		h.Write([]byte(from))
+		h.Write([]byte{0})
+		h.Write([]byte(ops))
+		h.Write([]byte(op.Res()))
+		h.Write([]byte(to))
+		var key [20]byte
+		copy(key[:], h.Sum(nil))
+		if seenEdge[key] {
+			return
+		}
+		seenEdge[key] = true
+		if !seenOp[ops] {
+			seenOp[ops] = true
+			g.Alphabet = append(g.Alphabet, opNoRes)
+		}
+		if _, ok := g.Out[from]; !ok {
+			g.Order = append(g.Order, from)
+		}
+		g.Out[from] = append(g.Out[from], &Edge{From: from, To: to, Op: op, OpS: ops})
+		g.N++
+	}
+	for sc.Scan() {
+		line := sc.Bytes()
+		if len(line) > 5 && line[0] == '{' && line[2] == 's' {
+			var rec struct {
+				S  int             `json:"s"`
+				St json.RawMessage `json:"st"`
+			}
+			if err := json.Unmarshal(line, &rec); err != nil {
+				return nil, err
+			}
+			if rec.S != len(states) {
+				return nil, fmt.Errorf("state ids out of order")
+			}
+			states = append(states, string(rec.St)) // already canonical
 			continue
 		}
-		if !strings.HasPrefix(line, pfx) || !strings.HasSuffix(line, `">>`) {
+		if len(line) > 5 && line[0] == '{' && line[2] == 'e' {
+			var rec struct {
+				E  [2]int `json:"e"`
+				Op Op     `json:"op"`
+			}
+			if err := json.Unmarshal(line, &rec); err != nil {
+				return nil, err
+			}
+			add(states[rec.E[0]], states[rec.E[1]], rec.Op)
 			continue
 		}
-		body := unquoteTLA(line[len(pfx) : len(line)-3])
+		text := string(line)
+		if !strings.HasPrefix(text, pfx) || !strings.HasSuffix(text, `">>`) {
+			continue
+		}
+		body := unquoteTLA(text[len(pfx) : len(text)-3])
 		var rec struct {
 			From json.RawMessage `json:"from"`
 			To   json.RawMessage `json:"to"`
@@ -157,36 +221,17 @@ func Load(path string) (*Graph, error) {
 		if err != nil {
 			return nil, err
 		}
-		if rec.Op.Name() == "Probe" {
-			// marker: this state was expanded by TLC
-			if _, ok := g.Out[from]; !ok {
-				g.Order = append(g.Order, from)
-				g.Out[from] = nil
-			}
-			g.Expanded[from] = true
-			continue
+		if s, ok := intern[from]; ok {
+			from = s
+		} else {
+			intern[from] = from
 		}
-		opNoRes := Op{}
-		for k, v := range rec.Op {
-			if k != "res" {
-				opNoRes[k] = v
-			}
+		if s, ok := intern[to]; ok {
+			to = s
+		} else {
+			intern[to] = to
 		}
-		ops := CanonV(opNoRes)
-		key := from + "|" + ops + "|" + rec.Op.Res() + "|" + to
-		if seenEdge[key] {
-			continue
-		}
-		seenEdge[key] = true
-		if !seenOp[ops] {
-			seenOp[ops] = true
-			g.Alphabet = append(g.Alphabet, opNoRes)
-		}
-		if _, ok := g.Out[from]; !ok {
-			g.Order = append(g.Order, from)
-		}
-		g.Out[from] = append(g.Out[from], &Edge{From: from, To: to, Op: rec.Op, OpS: ops})
-		g.N++
+		add(from, to, rec.Op)
 	}
 	if err := sc.Err(); err != nil {
 		return nil, err
